@@ -1,14 +1,5 @@
 #!/bin/bash
-# usage: selftest_all.sh  — every selftest/<id>/*.diff and seeded/<id>/*/patch.diff must make property <id>'s check fail; prints the misses.
+# usage: selftest_all.sh [parallelism]  — every selftest/<id>/*.diff and seeded/<id>/*/patch.diff must make property <id>'s check fail; prints the misses.
 cd /verif
-miss=0
-for f in selftest/C*/*.diff seeded/C*/*/patch.diff; do
-  id=$(echo "$f" | cut -d/ -f2)
-  wt=$(mktemp -d /tmp/st.XXXXXX)
-  git -C /repo worktree add -q --detach "$wt" HEAD >/dev/null 2>&1
-  if ! git -C "$wt" apply "/verif/$f" 2>/dev/null; then echo "$f: DOES-NOT-APPLY"; git -C /repo worktree remove --force "$wt"; continue; fi
-  VERIF_REPO="$wt" VERIF_EVIDENCE_DIR="$wt/.evidence" ./bin/sa check "$id" >/dev/null 2>&1; c=$?
-  [ $c -ne 1 ] && { echo "$f: exit=$c (expected 1)"; miss=$((miss+1)); }
-  git -C /repo worktree remove --force "$wt"
-done
-echo "misses: $miss"
+ls selftest/C*/*.diff seeded/C*/*/patch.diff | xargs -P "${1:-4}" -n 1 tools/selftest_one.sh | tee /tmp/selftest_all.out
+echo "misses: $(grep -c 'expected 1\|DOES-NOT-APPLY' /tmp/selftest_all.out)"
